@@ -236,7 +236,7 @@ Theorem chrome_structure : forall tasks s,
   ok_chrome tasks s (chrome_events tasks s) = true.
 Proof.
   intros tasks s Hwf ND Hcover. unfold wf_stream in Hwf. apply andb_prop in Hwf. destruct Hwf as [Hwf Hmono].
-  destruct (run_inv s (m_init []) [] [] (fun _ => 0) (fun _ => 0) (rel_init []) Hwf Hmono) as [R _].
+  destruct (run_inv 0 s (m_init []) [] [] (fun _ => 0) (fun _ => 0) (rel_init []) Hwf Hmono) as [R _].
   { intros q. apply stat_root0. reflexivity. }
   { intros q. change (g_root (m_g (m_init []))) with (root0 []). unfold time_at. rewrite stat_root0; reflexivity. }
   set (m := fold_left (step 0) s (m_init [])) in *.
